@@ -13,7 +13,7 @@ import re
 logging.disable(logging.CRITICAL)
 
 from ..tlc import SPECS, MachineryError  # noqa: E402
-from .pdfwriter import Name, Ref, Revision, Stream, build, ser_string  # noqa: E402
+from .pdfwriter import HexStr, Name, Ref, Revision, Stream, build, ser_string  # noqa: E402
 
 from pdfminer.converter import PDFPageAggregator  # noqa: E402
 from pdfminer.layout import LTChar, LTCurve, LTFigure, LTLine, LTRect  # noqa: E402
@@ -109,7 +109,21 @@ def build_doc(progs, forms, mediabox=(0, 0, 612, 792), split=None):
         objs[nxt] = Stream(attrs, prog_bytes(f["body"]))
         xo[name] = Ref(nxt)
         nxt += 1
-    res = {"Font": fres, "XObject": xo}
+    # the colour spaces of ContentInterp.tla's CSN table
+    icc = {}
+    for n in (1, 3, 4, None):
+        objs[nxt] = Stream({"N": n} if n else {"Alternate": Name("DeviceRGB")}, b"\x00" * 8)
+        icc[n] = Ref(nxt)
+        nxt += 1
+    fn = {"FunctionType": 2, "Domain": [0, 1], "C0": [0, 0, 0], "C1": [1, 0, 0], "N": 1}
+    cs = {"CsI1": [Name("ICCBased"), icc[1]], "CsI3": [Name("ICCBased"), icc[3]], "CsI4": [Name("ICCBased"), icc[4]],
+          "CsBad": [Name("ICCBased"), icc[None]],
+          "CsN2": [Name("DeviceN"), [Name("Cyan"), Name("Spot1")], Name("DeviceRGB"), fn],
+          "CsN3": [Name("DeviceN"), [Name("A"), Name("B"), Name("C")], Name("DeviceRGB"), fn],
+          "CsSep": [Name("Separation"), Name("Spot"), Name("DeviceCMYK"), dict(fn, C0=[0, 0, 0, 0], C1=[0, 0, 0, 1])],
+          "CsIdx": [Name("Indexed"), Name("DeviceRGB"), 1, HexStr(b"\x00\x00\x00\xff\xff\xff")],
+          "CsLab": [Name("Lab"), {"WhitePoint": [1, 1, 1]}]}
+    res = {"Font": fres, "XObject": xo, "ColorSpace": cs}
     kids = []
     for p in progs:
         body = prog_bytes(p)
